@@ -7,7 +7,9 @@
 //! scenario := ( fix cfg ( tal* ) ( run* ) )
 //! cfg      := ( stale maxDepth aspa bgpsec )        stale: 0 reject 1 warn 2 accept
 //! tal      := ( key ( uri* ) )
-//! run      := ( now hasView cleanup ( tafile* ) ( point* ) ( tamper* ) )
+//! run      := ( now hasView cleanup ( tafile* ) ( point* ) ( tamper* ) [ ( tal* ) ] )
+//!             the optional last element: the TALs installed during this run
+//!             (replaces the scenario's TAL list for the run)
 //! tafile   := ( uri id ) | ( uri id ( key ok notBefore notAfter repo mft ) )
 //! point    := ( mftUri mftfile ( file* ) ( pick* ) )
 //! mftfile  := ( ) | ( id ) | ( id cert crlName number thisUpdate nextUpdate ( entry* ) )
@@ -391,9 +393,20 @@ impl<'a> Encoder<'a> {
                 Some(format!("( {} {} {} )", self.uris.get(&ca.mft_uri()), number, t.this_update))
             }).collect();
             let cleanup = opts.cleanup && !opts.dirty;
+            // Per-run TAL set (only when some TAL is not always installed).
+            let run_tals = if scn.world.tals.iter().any(|t| t.runs.is_some()) {
+                let list: Vec<String> = scn.world.tals_in(idx).iter().map(|tal| {
+                    format!(
+                        "( {} ( {} ) )", tal.key,
+                        tal.uris.iter().map(|u| self.uris.get(u).to_string()).collect::<Vec<_>>().join(" ")
+                    )
+                }).collect();
+                format!(" ( {} )", list.join(" "))
+            }
+            else { String::new() };
             runs.push(format!(
-                "( {} {} {} ( {} ) ( {} ) ( {} ) )", run.now, b(update), b(cleanup),
-                tas.join(" "), points.join(" "), tamper.join(" ")
+                "( {} {} {} ( {} ) ( {} ) ( {} ){} )", run.now, b(update), b(cleanup),
+                tas.join(" "), points.join(" "), tamper.join(" "), run_tals
             ));
         }
         format!("( 1 {cfg} ( {} ) ( {} ) )", tals.join(" "), runs.join(" "))
